@@ -155,6 +155,8 @@ Definition next_multiple_of (a b : Z) : Z := (a + b - 1) / b * b.
 (* GLWELayout { n, base2k, k, rank }: size() = k.div_ceil(base2k) *)
 Definition mk_glwe_layout (n base2k k rank : Z) : infos :=
   mkInfos n base2k (div_ceil k base2k) rank rank 0 1.
+Definition mk_gglwe_layout (n base2k k rank_in rank_out dnum dsize : Z) : infos :=
+  mkInfos n base2k (div_ceil k base2k) rank_out rank_in dnum dsize.
 
 (* take_slice::<T>(bytes / size_of::<T>()) takes (bytes / w) * w bytes *)
 Definition take_words (w bytes : Z) : tree := Take (bytes / w * w).
